@@ -34,6 +34,9 @@ NONDET_REVIEWED = {
 }
 
 
+# reviewed sites whose chain may select by position (none on the reviewed tree)
+REVIEWED_SELECTIVE = {}
+
 ELEMENTWISE = {"map", "filter", "cloned", "copied", "filter_map"}
 REDUCERS = {"any", "all", "count", "min", "max"}
 WRITES = {"push", "insert", "extend", "push_str", "remove", "append", "entry", "set"}
@@ -61,6 +64,26 @@ def _order_free(f, n):
             return False
         cur = par
     return False
+
+
+SELECTIVE = {"take", "skip", "step_by", "take_while", "skip_while", "map_while", "nth", "next", "last", "find", "find_map", "position", "rposition", "enumerate", "zip", "peekable", "first", "chunks", "windows", "nth_back", "next_back", "try_fold", "try_for_each", "reduce", "fold", "scan", "max_by_key", "min_by_key", "max_by", "min_by"}
+
+
+def _selective_chain(f, n):
+    """adapters / consumers after the iterator produced at n whose result depends on the order of the
+    elements (truncation, position, first match, non-commutative folds)"""
+    out = []
+    cur = n
+    for _ in range(12):
+        par = f.parent(cur)
+        while par is not None and par.get("k") in ("DropTemps", "Use", "AddrOf"):
+            cur, par = par, f.parent(par)
+        if par is None or par.get("k") != "MethodCall" or par["recv"] is not cur:
+            break
+        if par["method"] in SELECTIVE:
+            out.append(par["method"])
+        cur = par
+    return out
 
 
 def _exact_marker_predicate(prog):
@@ -285,6 +308,9 @@ def rule_nondet(check, reach):
             check.ok(R, k, hir.loc(nodes[0]), "iteration consumed by an order-insensitive reduction (any/all/count/min/max over element-wise adapters, closures without writes)")
         elif why and key == ("rewriter::extract_source_map", "iter", "DashMap") and not _exact_marker_predicate(prog):
             check.bad(R, k, hir.loc(nodes[0]), "the scan of the comment map was reviewed for comments that *are* a sourceMappingURL comment (trimmed text starts with the marker, at most one per file); with the current test several comments of one file can match and the hash order of the map decides which one wins")
+        elif why and key[2] in ("HashMap", "HashSet", "DashMap", "DashSet") and key[1] != "for" and fobj and any(_selective_chain(fobj[0], n) for n in nodes) and not REVIEWED_SELECTIVE.get(key):
+            sel = sorted({m for n in nodes for m in _selective_chain(fobj[0], n)})
+            check.bad(R, k, hir.loc(nodes[0]), "the iteration was reviewed as order-insensitive (%s), but its elements now go through %s: which elements are picked depends on the hash order, which differs from call to call" % (why, "/".join(sel)))
         elif why:
             check.ok(R, k, hir.loc(nodes[0]), "reviewed: %s" % why)
         else:
